@@ -55,6 +55,8 @@ impl<'a> SocketWriteVectored<'a> {
                 }
             }
 
+            #[cfg(may_verif)]
+            may_queue::verif::point(may_queue::verif::site::IO_WRITEV_EAGAIN, 0);
             if self.io_data.io_flag.load(Ordering::Relaxed) != 0 {
                 continue;
             }
@@ -75,7 +77,11 @@ impl EventSource for SocketWriteVectored<'_> {
                 .get_selector()
                 .add_io_timer(self.io_data, dur);
         }
+        #[cfg(may_verif)]
+        may_queue::verif::point(may_queue::verif::site::IO_WRITEV_SUB_ARMED, 0);
         io_data.co.store(co);
+        #[cfg(may_verif)]
+        may_queue::verif::point(may_queue::verif::site::IO_WRITEV_SUB_STORED, 0);
 
         // there is event, re-run the coroutine
         if io_data.io_flag.load(Ordering::Acquire) != 0 {
